@@ -430,7 +430,8 @@ class SegmentationImage:
         missing in the consecutive sequence from one to the maximum
         label number.
         """
-        return np.array(sorted(set(range(self.max_label + 1))
+        # (a Python int: max_label + 1 can exceed the label dtype)
+        return np.array(sorted(set(range(int(self.max_label) + 1))
                                .difference(np.insert(self.labels, 0, 0))))
 
     def copy(self):
@@ -565,7 +566,7 @@ class SegmentationImage:
         cmap : `matplotlib.colors.ListedColormap`
             The matplotlib colormap with colors in RGBA format.
         """
-        return self._make_cmap(self.max_label + 1,
+        return self._make_cmap(int(self.max_label) + 1,
                                background_color=background_color,
                                seed=seed)
 
@@ -771,7 +772,7 @@ class SegmentationImage:
             return
 
         dtype = self.data.dtype  # keep the original dtype
-        relabel_map = np.zeros(self.max_label + 1, dtype=dtype)
+        relabel_map = np.zeros(int(self.max_label) + 1, dtype=dtype)
         relabel_map[self.labels] = self.labels
         relabel_map[labels] = new_label  # reassign labels
 
@@ -831,8 +832,11 @@ class SegmentationImage:
 
         old_slices = self.__dict__.get('slices', None)
         dtype = self.data.dtype  # keep the original dtype
+        if int(start_label) + self.nlabels - 1 > np.iinfo(dtype).max:
+            raise ValueError('The relabeled labels do not fit in the dtype '
+                             f'({dtype}) of the segmentation array.')
         new_labels = np.arange(self.nlabels, dtype=dtype) + start_label
-        new_label_map = np.zeros(self.max_label + 1, dtype=dtype)
+        new_label_map = np.zeros(int(self.max_label) + 1, dtype=dtype)
         new_label_map[self.labels] = new_labels
 
         data_new = new_label_map[self.data]
